@@ -9,7 +9,9 @@ records its tag, the filter records its tag, the ctxt injects `who = tag`, the c
 `emit::setup()…try_init_slot(&slot)` or the panicking `init_slot(&slot)` — while 0–8 observers
 spin on `slot.is_enabled()` / `slot.get()`, probe all five components of what `get()` returned,
 and emit / open spans / flush through it. Initialisers keep using the slot after their attempt.
-After everything joined the round thread probes and emits once more.
+After everything joined the round thread probes and emits once more. The last round of every
+process is played on the process-wide static slot behind `emit::runtime::shared()` through
+`Setup::try_init()` / `Setup::init()`.
 
 Oracle (written from the statement):
 * exactly one attempt succeeds; a losing `try_init_slot` returns `None` without panicking, a
@@ -397,7 +399,9 @@ fn tag_of(round: u64, i: usize) -> u64 {
     (round % 1_000_000 + 1) * 32 + i as u64
 }
 
-fn run_round(r: &mut Report, seed: u64, round: u64, sz: &Sizes) {
+/// `on_static`: the round uses the process-wide `emit::runtime::shared_slot()` (once per process)
+/// through `Setup::try_init()` / `Setup::init()` instead of a fresh slot on the stack.
+fn run_round(r: &mut Report, seed: u64, round: u64, sz: &Sizes, on_static: bool) {
     let mut g = Rng::stream(seed, &[20, 1, round]);
     let n_init = g.range(2, sz.max_init.max(2)) as usize;
     let n_obs = g.range(0, sz.max_obs) as usize;
@@ -405,12 +409,13 @@ fn run_round(r: &mut Report, seed: u64, round: u64, sz: &Sizes) {
     let jitter: Vec<u64> = (0..n_init).map(|_| if g.chance(1, 2) { 0 } else { g.below(400) }).collect();
     let actor_seeds: Vec<u64> = (0..n_init + n_obs + 1).map(|_| g.next()).collect();
     let case = json!({"seed": seed, "round": round, "initialisers": n_init, "observers": n_obs,
-                      "max_init": sz.max_init, "max_obs": sz.max_obs, "spin_cap": sz.spin_cap, "post_steps": sz.post_steps,
+                      "static_shared_slot": on_static, "max_init": sz.max_init, "max_obs": sz.max_obs, "spin_cap": sz.spin_cap, "post_steps": sz.post_steps,
                       "init_slot_callers": use_init_slot.iter().enumerate().filter(|(_, b)| **b).map(|(i, _)| i).collect::<Vec<_>>()});
     r.eval();
-    r.observe("rounds", 1);
+    r.observe(if on_static { "rounds-on-the-static-shared-slot" } else { "rounds" }, 1);
 
-    let slot = AmbientSlot::new();
+    let fresh = AmbientSlot::new();
+    let slot: &AmbientSlot = if on_static { emit::runtime::shared_slot() } else { &fresh };
     let _ = take_log();
 
     // ---- phase 0: the slot is empty ----
@@ -418,7 +423,7 @@ fn run_round(r: &mut Report, seed: u64, round: u64, sz: &Sizes) {
     let mut pre_g = Rng::new(actor_seeds[n_init + n_obs]);
     let mut next_id = 200u64 << 40;
     for _ in 0..4 {
-        step(&slot, &mut pre_g, &mut next_id, &mut pre.steps, &mut pre.emissions);
+        step(slot, &mut pre_g, &mut next_id, &mut pre.steps, &mut pre.emissions);
     }
     let pre_steps = pre.steps.len();
     let pre_log = take_log();
@@ -441,7 +446,6 @@ fn run_round(r: &mut Report, seed: u64, round: u64, sz: &Sizes) {
     let outs: Vec<ActorOut> = std::thread::scope(|s| {
         let mut handles = Vec::new();
         for o in 0..n_obs {
-            let slot = &slot;
             let gate = &gate;
             let aseed = actor_seeds[n_init + o];
             let (spin_cap, post_steps) = (sz.spin_cap, sz.post_steps);
@@ -465,7 +469,6 @@ fn run_round(r: &mut Report, seed: u64, round: u64, sz: &Sizes) {
             }));
         }
         for i in 0..n_init {
-            let slot = &slot;
             let gate = &gate;
             let aseed = actor_seeds[i];
             let tag = tag_of(round, i);
@@ -487,7 +490,12 @@ fn run_round(r: &mut Report, seed: u64, round: u64, sz: &Sizes) {
                     std::hint::spin_loop();
                 }
                 let s0 = stamp();
-                let res = catch(|| if by_init_slot { Some(setup.init_slot(slot)) } else { setup.try_init_slot(slot) });
+                let res = catch(|| match (on_static, by_init_slot) {
+                    (false, true) => Some(setup.init_slot(slot)),
+                    (false, false) => setup.try_init_slot(slot),
+                    (true, true) => Some(setup.init()),
+                    (true, false) => setup.try_init(),
+                });
                 let s1 = stamp();
                 let outcome = match res {
                     Ok(Some(init)) => {
@@ -515,7 +523,7 @@ fn run_round(r: &mut Report, seed: u64, round: u64, sz: &Sizes) {
     let mut post = ActorOut { role: "round-thread", idx: 1, tag: 0, used_init_slot: false, attempt: None, steps: Vec::new(), emissions: Vec::new(), log: ThreadLog::default() };
     let mut next_id = (200u64 << 40) + 1000;
     for _ in 0..3 {
-        step(&slot, &mut pre_g, &mut next_id, &mut post.steps, &mut post.emissions);
+        step(slot, &mut pre_g, &mut next_id, &mut post.steps, &mut post.emissions);
     }
     post.log = take_log();
     let post_ids: BTreeSet<u64> = post.emissions.iter().filter(|e| e.kind != "flush").map(|e| e.id).collect();
@@ -784,20 +792,24 @@ fn main() {
         let u = |k: &str, d: u64| case.get(k).and_then(|v| v.as_u64()).unwrap_or(d);
         let sz = Sizes { max_init: u("max_init", sz.max_init), max_obs: u("max_obs", sz.max_obs), spin_cap: u("spin_cap", sz.spin_cap), post_steps: u("post_steps", sz.post_steps) };
         // schedules are not replayable: repeat the round
-        for _ in 0..200 {
-            run_round(&mut r, seed, round, &sz);
+        let on_static = case.get("static_shared_slot").and_then(|v| v.as_bool()).unwrap_or(false);
+        for k in 0..200 {
+            // the static slot can be raced for once per process
+            run_round(&mut r, seed, round, &sz, on_static && k == 0);
         }
         std::process::exit(r.finish());
     }
 
-    let n = args.get_u64("rounds", args.n(2_000, 80_000));
+    let n = args.get_u64("rounds", args.n(2_000, 120_000));
     let seed = args.seed;
     // rounds spawn up to 24 threads each: a few rounds in parallel keep all cores contended
     let mut a = args.clone();
     if a.get("threads").is_none() {
         a.extra.insert("threads".into(), "4".into());
     }
-    par_cases(&mut r, &a, n, |i, r| run_round(r, seed, i, &sz));
+    par_cases(&mut r, &a, n, |i, r| run_round(r, seed, i, &sz, false));
+    // last: one round on the process-wide static slot behind `emit::runtime::shared()`
+    run_round(&mut r, seed, n, &sz, true);
 
     let code = r.finish();
     if code != 0 {
